@@ -259,4 +259,5 @@ def run(ctx):
     _gf20(ctx, [('SHIFT-RANGE', lambda c_, p_: shift_range(c_, p_, _E20(p_), ('generic_pos.c',)), 'bad_shift')])
 
     from engine.run import borrow
+    borrow(ctx, 'C02', ['SCALE'], 'the G.711 encoders scale a normalised float / double sample by the same constant in all entry points: another constant puts reconstruction levels on rounding ties')
     borrow(ctx, 'C03', ['TABLE-INDEX'], 'a codec kernel that indexes its table outside [0, N) does not compute the published function for that input (and reads foreign memory)')
